@@ -3,9 +3,9 @@
 Explicit-state search over histories of geometry changes applied to REAL third-core hex reactors
 built from generated blueprints:
 
-    convert / restorePreviousGeometry  (ThirdCoreHexToFullCoreChanger; the SAME changer object "P"
-                                        reused along the history, or a fresh one "F")
-    addEdgeAssemblies / removeEdgeAssemblies / scaleParamsRelatedToSymmetry (EdgeAssemblyChanger)
+    convert / restorePreviousGeometry  (ThirdCoreHexToFullCoreChanger; TWO changer objects "1", "2":
+                                        reuse of one, a fresh one at first use, interleavings)
+    addEdgeAssemblies / removeEdgeAssemblies (EdgeAssemblyChanger "1", "2") / scaleParamsRelatedToSymmetry
     assignment of a volume-integrated block parameter (scalar ``power``, multigroup ``mgFlux`` which
     no block has ever been assigned before) on the centre / a symmetry-line / an interior block
 
@@ -53,35 +53,35 @@ DEPTH = {"quick": 4, "thorough": 5}
 MAX_ASSIGN = {"quick": 1, "thorough": 2}  # assignments per history in the extra thorough search (1 elsewhere)
 
 OPS_ALL = [
-    ["convert", "P"],
-    ["restore", "P"],
-    ["addEdge", "P"],
-    ["removeEdge", "P"],
-    ["convert", "F"],
-    ["restore", "F"],
+    ["convert", "1"],
+    ["restore", "1"],
+    ["addEdge", "1"],
+    ["removeEdge", "1"],
+    ["convert", "2"],
+    ["restore", "2"],
     ["scaleSym"],
-    ["removeEdge", "F"],
-    ["addEdge", "F"],
+    ["removeEdge", "2"],
+    ["addEdge", "2"],
     ["assign", "centre", "power"],
     ["assign", "centre", "mgFlux"],
     ["assign", "lower", "power"],
     ["assign", "lower", "mgFlux"],
     ["assign", "interior", "power"],
 ]
-OPS_QUICK = [op for op in OPS_ALL if op not in (["addEdge", "F"], ["removeEdge", "F"], ["assign", "interior", "power"])]
+OPS_QUICK = [op for op in OPS_ALL if op != ["assign", "interior", "power"]]
 
 SCRIPTS = {
     # the (destructive) independence test runs on the last step of a script when that step creates copies
     # same changer reused: round trip, then a second conversion
-    "roundtrip-same-changer": [["convert", "P"], ["restore", "P"], ["convert", "P"]],
+    "roundtrip-same-changer": [["convert", "1"], ["restore", "1"], ["convert", "1"]],
     # edges on/off, halves combined, then a round trip with a fresh changer, edges again
-    "edges-then-roundtrip": [["addEdge", "P"], ["scaleSym"], ["removeEdge", "P"], ["convert", "F"], ["restore", "F"], ["addEdge", "F"]],
+    "edges-then-roundtrip": [["addEdge", "1"], ["scaleSym"], ["removeEdge", "1"], ["convert", "2"], ["restore", "2"], ["addEdge", "2"]],
     # edge operations on a full core are no-ops; parameters assigned in full core come back as thirds
-    "full-core-noops": [["convert", "F"], ["addEdge", "P"], ["removeEdge", "P"], ["assign", "centre", "power"], ["assign", "lower", "power"], ["restore", "F"], ["removeEdge", "F"]],
+    "full-core-noops": [["convert", "2"], ["addEdge", "1"], ["removeEdge", "1"], ["assign", "centre", "power"], ["assign", "lower", "power"], ["restore", "2"], ["removeEdge", "2"]],
     # conversion of a core that currently holds edge assemblies (both halves written), then its undo
-    "convert-with-edges": [["addEdge", "P"], ["assign", "lower", "power"], ["convert", "F"], ["restore", "F"]],
+    "convert-with-edges": [["addEdge", "1"], ["assign", "lower", "power"], ["convert", "2"], ["restore", "2"]],
     # parameter first assigned between two conversions by the same changer
-    "assign-between-conversions": [["assign", "centre", "power"], ["convert", "P"], ["assign", "centre", "power"], ["restore", "P"], ["assign", "centre", "mgFlux"], ["assign", "interior", "power"], ["convert", "P"], ["restore", "P"]],
+    "assign-between-conversions": [["assign", "centre", "power"], ["convert", "1"], ["assign", "centre", "power"], ["restore", "1"], ["assign", "centre", "mgFlux"], ["assign", "interior", "power"], ["convert", "1"], ["restore", "1"]],
 }
 SCRIPTS_QUICK_WIDE = ["roundtrip-same-changer", "edges-then-roundtrip", "convert-with-edges", "assign-between-conversions"]  # 3-ring family, quick (thorough: all)
 SCRIPTS_THOROUGH_WIDE = ["roundtrip-same-changer", "edges-then-roundtrip", "assign-between-conversions"]  # 4-ring family
@@ -245,6 +245,10 @@ def decorate(r, cells, seed):
     """Distinct block parameters of every location kind, one tracer nuclide (and density) per assembly."""
     grid = r.core.spatialGrid
     sh = 0.125 * (seed % 8)
+    import numpy as np
+
+    shared_list = [31.0 + sh, 32.5, 34.0]
+    shared_array = np.array([41.0 + sh, 42.5])
     for n, c in enumerate(cells):
         a = r.core.childrenByLocator[grid[c[0], c[1], 0]]
         a.p.maxPercentBu = n + 0.5 + sh
@@ -264,6 +268,10 @@ def decorate(r, cells, seed):
             b.p.pointsEdgeDpa = [base + 30 + m for m in range(6)]  # EDGES
             b.p.THedgeTemp = [base + 40 + m for m in range(6)]  # TOP|EDGES
             b.p.linPowByPin = [base + 50 + m for m in range(7)]  # CHILDREN
+            # ALIASED values: one python list / one ndarray object assigned to every block of the core
+            # (volume-integrated parameters whose setters do not copy)
+            b.p.adjMgFlux = shared_list
+            b.p.lastMgFlux = shared_array
             b.p.displacementX = 0.25 * (n + 1)
             b.p.displacementY = 0.5 * (n + 1) + bi
             clad = b.getComponentByName("clad")
@@ -304,8 +312,10 @@ def build_state(init):
     S = State()
     S.gc = gc
     S.r, S.core, S.init, S.cells, S.seed = r, r.core, init, cells, seed
-    S.P3, S.F3, S.F3tag, S.nF3 = gc.ThirdCoreHexToFullCoreChanger(), None, None, 0
-    S.PE, S.FE, S.FEtag, S.nFE = gc.EdgeAssemblyChanger(), None, None, 0
+    # two changer objects of each kind: every operation may be issued by #1 or #2 (reuse of one
+    # changer, a fresh one at its first use, and interleavings such as E1.add E2.remove E2.add E1.remove)
+    S.T = {"1": gc.ThirdCoreHexToFullCoreChanger(), "2": gc.ThirdCoreHexToFullCoreChanger()}
+    S.E = {"1": gc.EdgeAssemblyChanger(), "2": gc.EdgeAssemblyChanger()}
     S.converted_before = set()  # tags of third-core changers that have converted already
     S.edge_belief = {}  # tag -> this edge changer added edge assemblies and has not removed them itself
     S.orig = {}
@@ -680,12 +690,7 @@ def step(S, M, op, check):
     vs = []
     try:
         if kind == "convert":
-            if op[1] == "P":
-                ch, tag = S.P3, "P"
-            else:
-                S.nF3 += 1
-                ch, tag = gc.ThirdCoreHexToFullCoreChanger(), "F%d" % S.nF3
-                S.F3, S.F3tag = ch, tag
+            ch, tag = S.T[op[1]], op[1]
             was_third = M.domain == "third"
             had_edges = any(rec["kind"] == "edge" for rec in M.copies.values())
             if was_third:
@@ -712,14 +717,7 @@ def step(S, M, op, check):
                 vs += compare_totals(pre, totals(S, M), M.qual)
             return "converted", vs
         if kind == "restore":
-            if op[1] == "P":
-                ch, tag = S.P3, "P"
-            elif S.F3 is not None:
-                ch, tag = S.F3, S.F3tag
-            else:
-                ch, tag = gc.ThirdCoreHexToFullCoreChanger(), "new"
-            if op[1] == "F":
-                S.F3, S.F3tag = None, None
+            ch, tag = S.T[op[1]], op[1]
             if tag == M.active and S.seed % 2 == 0:
                 ch.restorePreviousGeometry()
             else:
@@ -734,12 +732,7 @@ def step(S, M, op, check):
             return "noop", vs
         if kind == "addEdge":
             S.edge_ops += 1
-            if op[1] == "P":
-                ch, tag = S.PE, "P"
-            else:
-                S.nFE += 1
-                ch, tag = gc.EdgeAssemblyChanger(), "F%d" % S.nFE
-                S.FE, S.FEtag = ch, tag
+            ch, tag = S.E[op[1]], op[1]
             before = set(actual_cells(S))
             ch.addEdgeAssemblies(S.core)
             added = set(actual_cells(S)) - before
@@ -765,14 +758,7 @@ def step(S, M, op, check):
             return ("edge-added" if halved == len(cands) else "edge-added-unhalved"), vs
         if kind == "removeEdge":
             S.edge_ops += 1
-            if op[1] == "P":
-                ch, tag = S.PE, "P"
-            elif S.FE is not None:
-                ch, tag = S.FE, S.FEtag
-            else:
-                ch, tag = gc.EdgeAssemblyChanger(), "new"
-            if op[1] == "F":
-                S.FE, S.FEtag = None, None
+            ch, tag = S.E[op[1]], op[1]
             ch.removeEdgeAssemblies(S.core)
             if M.domain == "full":
                 return "noop", vs
@@ -1179,12 +1165,16 @@ def _changer_state(ch, S):
     return {k: canon(v) for k, v in sorted(vars(ch).items())}
 
 
-def hidden(S):
+def hidden(S, M):
     from armi.reactor import parameters
 
     bit = parameters.SINCE_LAST_GEOMETRY_TRANSFORMATION
     flagged = sorted(pd.name for pd in S.core.getFirstBlock().p.paramDefs if pd.name in names()["volint"] and pd.assigned & bit)
-    return {"P3": _changer_state(S.P3, S), "F3": _changer_state(S.F3, S), "PE": _changer_state(S.PE, S), "FE": _changer_state(S.FE, S), "flags": flagged}
+    # the two changers of a kind are interchangeable objects: a state and its mirror image (#1 <-> #2)
+    # have the same futures, so the pair is kept as an unordered pair (with what the model knows of each)
+    third = sorted(([_changer_state(S.T[k], S), M.active == k] for k in ("1", "2")), key=repr)
+    edge = sorted(([_changer_state(S.E[k], S), bool(S.edge_belief.get(k))] for k in ("1", "2")), key=repr)
+    return {"third": third, "edge": edge, "flags": flagged}
 
 
 def model_digest(M):
@@ -1197,7 +1187,7 @@ def model_digest(M):
     for c in sorted(M.copies):
         rec = M.copies[c]
         parts.append([list(c), list(rec["src"]), rec["k"], rec["kind"], observe.digest(norm_assembly(rec["exp"], False, True))])
-    return observe.digest([M.domain, M.active and M.active[0], sorted(map(list, M.edge_backup)), parts, sorted(M.nassign.items())])
+    return observe.digest([M.domain, M.active is not None, sorted(map(list, M.edge_backup)), parts, sorted(M.nassign.items())])
 
 
 def full_digest(S, M, o):
@@ -1266,7 +1256,7 @@ def _run(item, every_step):
             if not vs and last:
                 if not every_step:
                     # canonical form first: the independence test below modifies the copies
-                    res["canon"], res["full"], res["ops"] = [model_digest(M), hidden(S), [M.active is not None and M.active == S.F3tag, sorted(k for k, v in S.edge_belief.items() if v and k in ("P", S.FEtag))]], full_digest(S, M, o), enabled_ops(S, M, item)
+                    res["canon"], res["full"], res["ops"] = [model_digest(M), hidden(S, M)], full_digest(S, M, o), enabled_ops(S, M, item)
                 if out in ("converted", "edge-added", "edge-added-unhalved"):
                     vs = check_independence(S, M, opname)
         if vs:
@@ -1280,7 +1270,7 @@ def _run(item, every_step):
         if terminal:
             res["canon"], res["full"], res["ops"] = "terminal:" + repr(hist), None, []
         elif "canon" not in res:
-            res["canon"], res["full"], res["ops"] = [model_digest(M), hidden(S), [M.active is not None and M.active == S.F3tag, sorted(k for k, v in S.edge_belief.items() if v and k in ("P", S.FEtag))]], full_digest(S, M, o), enabled_ops(S, M, item)
+            res["canon"], res["full"], res["ops"] = [model_digest(M), hidden(S, M)], full_digest(S, M, o), enabled_ops(S, M, item)
     return res
 
 
